@@ -112,6 +112,20 @@ def detect(ids):
             meta = json.load(open(mp))
             if os.environ.get("MUT_OWN"):
                 print("%-8s %s" % (mid, res if res else "MISSED"))
+                if os.environ.get("MUT_OWN") != "dry" and "error" not in res:
+                    # merge: the checks run now replace their earlier entries, the others are kept
+                    db = dict(meta.get("detected_by") or {})
+                    db.pop("error", None)
+                    ran = [meta["property"]] + [x for x in os.environ["MUT_OWN"].split(",") if x.startswith("C")]
+                    for pp in ran:
+                        db.pop(pp, None)
+                    db.update(res)
+                    meta["detected_by"] = db
+                    meta["own_check"] = {"verif_commit": sh("git rev-parse --short HEAD", cwd=VERIF)[1].strip(), "checks": ran,
+                                         "result": res.get(meta["property"]) or "MISSED"}
+                    meta["caught"] = any(v != ["ANALYSIS-ERROR"] for v in db.values())
+                    meta["caught_by_own_property"] = meta["property"] in db and db[meta["property"]] != ["ANALYSIS-ERROR"]
+                    json.dump(meta, open(mp, "w"), indent=1)
                 continue
             meta["checks_run"] = "all 20 quick checks with SA_REPO=<scratch worktree with the patch applied>"
             meta["detected_by"] = res
